@@ -52,6 +52,13 @@ claim("C16", "other",
       "DESIGN.md §3 C16")
 
 
+claim("C17", "other",
+      "HIR provenance/path rules over every Workspace method: co-mutation of the three indexes, single-object key provenance (or a dominating lookup-and-compare tie), evaluator invalidation on every mutating path, fall-through of deploy's Err arm",
+      "Static rule checking of the structural conditions under which the list and the two indexes cannot drift apart: each public operation mutates all three together on one path with keys of one Definitions object, clears the evaluator map on every mutating path, deploy clears first and keeps going after a failed build. These are necessary conditions of the history property; the set of models left by an arbitrary operation sequence is not computed (that would be model checking).",
+      "Trusts rustc's HIR and engine/hirflow.py (private helpers are inlined into their callers, closures contribute their free variables). Not decided: the history property itself, error texts, ModelEvaluator::new.",
+      "DESIGN.md §3 C17")
+
+
 def main():
     checks = []
     for pid in sorted(CLAIMED):
